@@ -152,7 +152,19 @@ Theorem C04_dkls_bound_field_detected_partial : forall A : alg,
 Proof. exact dkls_detected. Qed.
 Print Assumptions C04_dkls_bound_field_detected_partial.
 
-(* psi and phi: invisible to the recipient's checks *)
+(* psi (Round3P2P) and phi (Round2P2P): unicast leaves that NO check of the recipient reads; for
+   these two leaves detection is at the aggregator only (known finding
+   dkls23-unicast-detected-only-by-aggregator): the recipient's verdict is unchanged by any
+   value, and what dkls23.Aggregate returns has passed the ECDSA verifier *)
+Theorem C04_dkls_late_detected_only_at_aggregator : forall (A : alg) (ecdsa_ok : car A -> car A -> car A -> bool)
+    (rdiv : car A -> car A -> car A) (mu : dmut A) (st : dst A) (id : N) (m : ddos A),
+  dkls_class (dmut_fld A mu) = Late ->
+  (forall c : check (dst A) (ddos A), In c (dkls_checks A) -> c_pred c st id (dapply A mu m) = c_pred c st id m) /\
+  (forall (pk : car A) (ps : list (dpart A)) (r s : car A),
+     dkls_aggregate A ecdsa_ok rdiv pk ps = Some (r, s) -> ecdsa_ok pk r s = true).
+Proof. exact dkls_late_only_aggregator. Qed.
+Print Assumptions C04_dkls_late_detected_only_at_aggregator.
+
 Theorem C04_dkls_late : forall (A : alg) (mu : dmut A) (st : dst A) (id : N) (m : ddos A) (c : check (dst A) (ddos A)),
   dkls_class (dmut_fld A mu) = Late -> In c (dkls_checks A) ->
   c_pred c st id (dapply A mu m) = c_pred c st id m.
